@@ -116,6 +116,7 @@ def check(program: Program, run: Run) -> None:
         "Dialect behaviour selected by the class of the node instead of ctx.dialect is tabulated by comparing the "
         "skeleton of every dialect override with the generic method it replaces (R2). Nothing is executed.")
     run.rule("R1 dialect fields (dialect, quote chars, as_keyword, groupby/orderby_alias, parameterizer) are Inherit at every nested render site; no ctx bypass; SqlContext.copy forwards all fields")
+    run.rule("R1c every convention field of every shipped dialect context reaches the operands of a top-level set operation (re-derived, forced by the builder, or equal to the default)")
     run.rule("R2 an override in a dialect class that changes the rendering of a construct the generic class can also produce (SELECT path, value literals, set-operand wrapping) requires the generic renderer to consult ctx.dialect")
     run.assumptions += ["class-hierarchy resolution; the six shipped SQL_CONTEXT records"]
     sites = render_sites(program)
@@ -197,8 +198,75 @@ def check(program: Program, run: Run) -> None:
         if not ok:
             run.finding(f"C08/copy-drops-field:SqlContext.{fld}", f"SqlContext.copy does not forward `{fld}` (kwargs.get('{fld}', self.{fld})): every derived context resets it", where=cp.loc(), rule="R1")
 
+    # ---- R1c entry contexts
+    _entry_contexts(program, run)
+
     # ---- R2 class-keyed conventions
     _r2(program, run)
+
+
+CONVENTION_FIELDS = ("dialect", "quote_char", "secondary_quote_char", "alias_quote_char", "as_keyword", "groupby_alias", "orderby_alias")
+
+
+def _entry_contexts(program: Program, run: Run) -> None:
+    """R1c: a statement can also be entered through _SetOperation.__str__, which starts from the *default* context and
+    re-derives only some fields from the operand's query class.  Every convention field in which a shipped dialect's
+    SQL_CONTEXT (or the policy its builder forces) differs from what that entry path delivers is a convention the
+    operands of a top-level set operation silently lose."""
+    from .c07 import shipped_contexts
+    ctxs = shipped_contexts(program)
+    so = program.cls("_SetOperation")
+    sk, _ = render(program, so, method="__str__")
+    slot = None
+    for part, conds, in_rep in walk_parts(sk):
+        if isinstance(part, SlotP) and isinstance(part.ctx, CtxV) and root_attr(recv_path(part.recv)) == "base_query":
+            slot = part
+            break
+    if slot is None:
+        raise AnalysisError("anchor vanished: no base_query slot in _SetOperation.__str__ skeleton")
+
+    def conv(v):
+        return v.value if isinstance(v, Const) else (v.name if isinstance(v, EnumV) else None)
+
+    n = 0
+    for qn, rec in sorted(ctxs.items()):
+        bname = qn + "Builder"
+        if bname not in {c.qualname for c in program.all_classes()}:
+            raise AnalysisError(f"anchor vanished: builder class for {qn}")
+        bc = program.cls(bname)
+        bsk, _ = render(program, bc)
+        forced = {}
+        for part, conds, in_rep in walk_parts(bsk):
+            if isinstance(part, SlotP) and isinstance(part.ctx, CtxV):
+                for k in CONVENTION_FIELDS:
+                    forced.setdefault(k, set()).add(part.ctx.fields[k])
+        force = {k: conv(next(iter(vs))) for k, vs in forced.items() if len(vs) == 1 and isinstance(next(iter(vs)), (Const, EnumV))}
+        policy = {k: force.get(k, rec[k]) for k in CONVENTION_FIELDS}
+        delivered = {}
+        for k in CONVENTION_FIELDS:
+            v = slot.ctx.fields[k]
+            if k in force:
+                delivered[k] = force[k]
+            elif isinstance(v, (Const, EnumV)):
+                delivered[k] = conv(v)
+            elif isinstance(v, Sym) and v.kind == "attr" and "QUERY_CLS.SQL_CONTEXT" in show(v) and v.args[1] in rec:
+                delivered[k] = rec[v.args[1]]
+            else:
+                raise AnalysisError(f"unsupported construct: _SetOperation.__str__ delivers ctx.{k} = {show(v)[:80]}")
+        # the alias delimiter actually written is `alias_quote_char or quote_char` (utils.format_alias_sql)
+        for d in (policy, delivered):
+            d["alias_quote_char"] = d["alias_quote_char"] or d["quote_char"]
+        for k in CONVENTION_FIELDS:
+            n += 1
+            ok = policy[k] == delivered[k]
+            run.ob("C08/R1c a top-level set operation delivers the dialect's convention to its operands", f"{qn}:{k}", ok,
+                   detail=f"dialect policy {policy[k]!r}; delivered through _SetOperation.__str__ {delivered[k]!r}", where=f"{slot.src[2]}:{slot.src[1]}" if slot.src else "")
+            if not ok:
+                run.finding(f"C08/entry-context-drops:_SetOperation.__str__:{k}:{qn}",
+                            f"{qn} sets ctx.{k}={policy[k]!r}, but str() of a set operation over {bname} starts from the default context, does not re-derive {k} from the operand's query class "
+                            f"and {bname}.get_sql does not force it: the operands are rendered with {k}={delivered[k]!r}",
+                            where=f"{slot.src[2]}:{slot.src[1]}" if slot.src else "", rule="R1c")
+    run.analysed["entry_context_cells"] = n
 
 
 def _init_consts(c: ClassInfo) -> dict:
